@@ -529,6 +529,21 @@ func c15GenValid(r *rand.Rand, count func(string)) *c15Case {
 	if r.Intn(25) == 0 {
 		n = verifh.Pick(r, c15BigSizes)
 	}
+	// a class of its own: the FIRST source read is larger than transform.Reader's 4096-byte source
+	// buffer and the charset is sniffed from it (the decoder must not keep reading from the caller's
+	// buffer, which the caller overwrites after every Read)
+	bigFirst := r.Intn(12) == 0
+	if bigFirst {
+		n = verifh.Pick(r, []int{4097, 4200, 5000, 8193, 12000})
+		switch cs.kind {
+		case "u16le", "u16be", "utf8bom":
+			site = "bom"
+		case "utf8":
+			site = "metacharset"
+		default:
+			site = verifh.Pick(r, []string{"metacharset", "metahttpequiv", "conflict-meta"})
+		}
+	}
 	declAt := 0
 	switch r.Intn(4) {
 	case 0:
@@ -575,6 +590,19 @@ func c15GenValid(r *rand.Rand, count func(string)) *c15Case {
 	c.segs = c15Segment(r, b, mode)
 	c.term, c.lwt = c15PickTerm(r)
 	c.bufs, c.tail, c.dirty = c15PickBufs(r, len(b.body))
+	if bigFirst && len(b.body) > 4096 {
+		k := 4097 + r.Intn(len(b.body)-4096)
+		c.segs = []string{b.body[:k]}
+		if k < len(b.body) {
+			c.segs = append(c.segs, b.body[k:])
+		}
+		c.bufs = append([]int{verifh.Pick(r, []int{k, k + 1, 8192, 16384, len(b.body) + 512})}, c.bufs...)
+		if c.bufs[0] < k {
+			c.bufs[0] = k
+		}
+		c.ct = verifh.Pick(r, []string{"text/html", "text/html", "application/xhtml+xml", "text/plain"})
+		count("first-read>4096-sniffed")
+	}
 	c.prescan = func(content string) (encoding.Encoding, string) { return c15ExpectedPrescan(b, len(content)) }
 	if _, e := c15ExpectedBOM(b.body); e != nil {
 		c.cands = append(c.cands, e)
@@ -775,7 +803,7 @@ func TestVerif_C15_read(t *testing.T) {
 		"site:conflict-header", "site:decoy", "kind:mb", "kind:sb", "kind:u16le", "kind:u16be", "kind:utf8", "kind:utf8bom",
 		"impl-kind:raw", "impl-kind:hdr", "impl-kind:auto", "sniff:found", "sniff:nothing", "impl-term:eof", "impl-term:err",
 		"malformed:random-bytes", "malformed:mutated", "malformed:soup", "segmode:3", "segmode:4",
-		"settings-via-global-wrappers", "settings-program", "prog:request-by-a-clone", "prog:cloned-while-switched-off", "prog:cloned-with-filter-set",
+		"first-read>4096-sniffed", "settings-via-global-wrappers", "settings-program", "prog:request-by-a-clone", "prog:cloned-while-switched-off", "prog:cloned-with-filter-set",
 		"prog:cloned-off-with-filter-then-switched-on", "prog:several-clones", "decoder:hdr-w1252", "decoder:hdr-u16le", "decoder:hdr-tbl", "decoder:sniff-w1252", "decoder:sniff-u16le", "decoder:sniff-u16be", "decoder:sniff-tbl"} {
 		if cnt[must] == 0 {
 			t.Errorf("generator never reached bucket %q", must)
